@@ -8,7 +8,6 @@ From Coq Require Import Reals ZArith.
 From Coquelicot Require Import Coquelicot.
 From PV Require Import Cx.CFun.
 From PV Require Import gen.El_C gen.El_G gen.El_Ga gen.El_H gen.El_Ha gen.El_K gen.El_Ky gen.El_L gen.El_La gen.El_Ls gen.El_Q gen.El_R gen.El_Tlmbo gen.El_Tlmbq gen.El_Tlmbs gen.El_Tlmno gen.El_Tlmnq gen.El_Tlmns gen.El_W gen.El_Wo gen.El_Ws gen.El_Zarc.
-From PV Require Import Circuit.TlmBase gen.Tlm_gen Circuit.Tlm_facts.
 Open Scope C_scope.
 
 Theorem C02_C : forall (S : syms) (f p_C : C), C_impl S f p_C = C_eqn S f p_C.
@@ -98,26 +97,6 @@ Print Assumptions C02_Ws.
 Theorem C02_Zarc : forall (S : syms) (f p_R p_tau p_n : C), Zarc_impl S f p_R p_tau p_n = Zarc_eqn S f p_R p_tau p_n.
 Proof. exact Zarc_impl_eq_eqn. Qed.
 Print Assumptions C02_Zarc.
-
-(* the container element Tlm (general transmission line): for every state (open, short, value) of its five sub-circuits and every
-   L, the numeric route (_impedance with _eq8 .. _eq20) and the symbolic route (_sympy) agree — also on which configurations are
-   refused — and with all sub-circuits present the value is the documented equation.  Both routes and the equation are regenerated
-   from transmission_line_model.py on every run (tools/tr_tlm.py). *)
-Theorem C02_Tlm_numeric_eq_symbolic : forall (S : syms) (x1 x2 za zb ze : sub) (L : C),
-  tlm_impl S x1 x2 za zb ze L = tlm_sym S x1 x2 za zb ze L.
-Proof. exact tlm_impl_eq_sym. Qed.
-Print Assumptions C02_Tlm_numeric_eq_symbolic.
-
-Theorem C02_Tlm_documented_equation : forall (S : syms) (x1 x2 za zb ze L : C),
-  tlm_impl S (SVal x1) (SVal x2) (SVal za) (SVal zb) (SVal ze) L = Some (tlm_eqn S x1 x2 za zb ze L).
-Proof. exact tlm_general_is_documented_equation. Qed.
-Print Assumptions C02_Tlm_documented_equation.
-
-Theorem C02_Tlm_refused_iff : forall (S : syms) (x1 x2 za zb ze : sub) (L : C),
-  tlm_impl S x1 x2 za zb ze L = None <->
-  (is_open x1 || is_open x2 || (is_short x1 && is_short x2) || is_open ze || is_short ze = true)%bool.
-Proof. exact tlm_refused_iff. Qed.
-Print Assumptions C02_Tlm_refused_iff.
 
 (* non-vacuity: the record of function symbols is inhabited *)
 Example C02_syms_inhabited : syms.
